@@ -79,51 +79,51 @@ fn agent_plan(profile: &'static str, quick: u64, thorough_runs: u64, thorough: b
 
 pub fn plan(prop: &str, thorough: bool) -> Option<Plan> {
     Some(match prop {
-        "C05" => agent_plan("balanced", 150_000, 4_000_000, thorough, vec!["probe.two_due_at_same_poll", "probe.response_after_timeout", "probe.response_after_cancel", "probe.duplicate_response", "probe.id_reused_after_completion", "probe.response_after_cancel_before_report"]),
-        "C06" => agent_plan("timing", 150_000, 4_000_000, thorough, vec!["probe.two_due_at_same_poll", "probe.poll_later_than_two_deadlines", "probe.wakeup_more_than_3600s_ahead", "probe.reconfigured_mid_schedule"]),
-        "C07" => agent_plan("forgery", 150_000, 4_000_000, thorough, vec!["probe.signed_request_no_remote_credentials", "probe.remote_credentials_changed_while_signed_outstanding", "probe.mixed_integrity_pair"]),
-        "C15" => agent_plan("balanced", 150_000, 4_000_000, thorough, vec!["probe.incoming_request_with_outstanding_id"]),
-        "C18" => agent_plan("balanced", 150_000, 4_000_000, thorough, vec!["probe.two_due_at_same_poll", "probe.poll_later_than_two_deadlines"]),
-        "C20" => agent_plan("balanced", 60_000, 1_500_000, thorough, vec!["probe.two_due_at_same_poll"]),
+        "C05" => agent_plan("balanced", 800_000, 12_000_000, thorough, vec!["probe.two_due_at_same_poll", "probe.response_after_timeout", "probe.response_after_cancel", "probe.duplicate_response", "probe.id_reused_after_completion", "probe.response_after_cancel_before_report"]),
+        "C06" => agent_plan("timing", 800_000, 12_000_000, thorough, vec!["probe.two_due_at_same_poll", "probe.poll_later_than_two_deadlines", "probe.wakeup_more_than_3600s_ahead", "probe.reconfigured_mid_schedule"]),
+        "C07" => agent_plan("forgery", 800_000, 12_000_000, thorough, vec!["probe.signed_request_no_remote_credentials", "probe.remote_credentials_changed_while_signed_outstanding", "probe.mixed_integrity_pair"]),
+        "C15" => agent_plan("balanced", 800_000, 12_000_000, thorough, vec!["probe.incoming_request_with_outstanding_id"]),
+        "C18" => agent_plan("balanced", 800_000, 12_000_000, thorough, vec!["probe.two_due_at_same_poll", "probe.poll_later_than_two_deadlines"]),
+        "C20" => agent_plan("balanced", 80_000, 1_200_000, thorough, vec!["probe.two_due_at_same_poll"]),
         "C01" => codec_plan(
             "exploration",
-            vec![b("wire", "hostile", 120_000, 3_000_000, thorough), b("wire", "faults", 60_000, 1_500_000, thorough), b("wire", "baseline", 20_000, 300_000, thorough), b("wire", "bigbuf", 2_500, 60_000, thorough)],
+            vec![b("wire", "hostile", 500_000, 8_000_000, thorough), b("wire", "faults", 250_000, 4_000_000, thorough), b("wire", "baseline", 80_000, 1_000_000, thorough), b("wire", "bigbuf", 4_000, 80_000, thorough)],
             "each evaluation is one simulated delivery sequence: 1..4 messages from the library builder or the foreign peer, 0..4 wire faults each (bit/byte/burst corruption, truncation, garbage or next-message concatenation, attribute re-type/resize/duplicate/drop/swap, insertion after integrity/fingerprint, header damage), every delivery run through the full receive pipeline (MessageType/MessageHeader/Message::from_bytes, RawAttribute::from_bytes at body offsets, all 19 typed decoders, iteration, lookups, validate_integrity under two keys, check_attribute_types on requests and non-requests with drawn sets + rebuild, Display/Debug; tracing subscriber installed in 1/4 of runs) under catch_unwind and a 20 s watchdog; non-trivial = at least one fault fired or the message has attributes; distinct = distinct event-log hash",
             vec!["probe.delivery_shorter_than_2_bytes", "probe.policing_non_request", "probe.tracing_subscriber_installed", "probe.delivery_longer_than_16bit_message", "probe.buffer_longer_than_declared_length"],
         ),
         "C02" => codec_plan(
             "exploration",
-            vec![b("wire", "baseline", 80_000, 1_500_000, thorough), b("wire", "faults", 150_000, 4_000_000, thorough), b("wire", "hostile", 100_000, 3_000_000, thorough), b("tailsplice", "default", 40_000, 1_000_000, thorough)],
+            vec![b("wire", "baseline", 250_000, 3_000_000, thorough), b("wire", "faults", 500_000, 8_000_000, thorough), b("wire", "hostile", 400_000, 6_000_000, thorough), b("tailsplice", "default", 150_000, 2_000_000, thorough)],
             "each evaluation is one simulated delivery sequence (see C01) whose every delivery is judged by the differential oracle: accept <=> reference decoder accepts (over-long buffers: refusal, or behaviour identical to the buffer cut to its declared length); on reject the named cause must be one of the defects present (byte counts where the property pins them); on accept class, method, transaction id, the exposed attribute sequence and first-match lookups must equal the reference view; fault-free (baseline) and fault-injecting profiles are separate batches; non-trivial = at least one fault fired or the message has attributes; distinct = distinct event-log hash",
             vec!["probe.buffer_longer_than_declared_length", "probe.both_integrity_attributes_and_fingerprint"],
         ),
         "C04" => codec_plan(
             "fault_enumeration",
-            vec![b("tamper", "default", 4_000, 150_000, thorough)],
+            vec![b("tamper", "default", 100_000, 1_500_000, thorough)],
             "each run samples one sealed message (library builder: SHA-1 / SHA-256 / both, +-fingerprint; foreign peer: every legal tail incl. truncated SHA-256 MACs and SHA-256-before-SHA-1) and one key (short- or long-term over arbitrary UTF-8), then enumerates EVERY single-bit flip from byte 0 to the end of the integrity attribute that validation reports, plus sampled byte substitutions, six other keys, the no-integrity case and a one-wrong-of-two pair; evaluations = mutants + key trials judged; every mutant is non-trivial (a damaged or mis-keyed message); distinct counts sampled messages (each mutant of a message is distinct by construction)",
             vec![],
         ),
         "C09" => codec_plan(
             "fault_enumeration",
-            vec![b("crc", "default", 2_500, 60_000, thorough)],
+            vec![b("crc", "default", 25_000, 120_000, thorough)],
             "each run samples one fingerprinted message (library builder or foreign peer, with and without integrity attributes) and enumerates EVERY single-bit flip, every burst of width 2..=32 at every bit offset (4 interior patterns) for messages <= 48 B (thorough <= 256 B; sampled above), every single-byte substitution for messages <= 32 B (thorough <= 64 B; sampled above); each mutant is judged against the reference decoder and by the direct clause (a tolerant walk of the whole buffer still ends in FINGERPRINT => must be rejected); evaluations = mutants judged; every mutant is non-trivial; distinct counts sampled messages",
             vec!["probe.corruption_left_fingerprint_in_place", "probe.corruption_dissolved_fingerprint"],
         ),
         "C10" => codec_plan(
             "exploration",
-            vec![b("tailsplice", "default", 120_000, 3_000_000, thorough), b("wire", "baseline", 40_000, 600_000, thorough)],
+            vec![b("tailsplice", "default", 1_200_000, 20_000_000, thorough), b("wire", "baseline", 150_000, 2_000_000, thorough)],
             "each run: (1) a foreign-peer message with 0..4 ordinary attributes and a drawn order/subset of {MI, MI-SHA256 (16..32 B), FP} with right or wrong MACs (sometimes an ordinary attribute smuggled in after the integrity attribute); (2) a library-built signed message whose bytes after the first integrity attribute are replaced four times by an on-path attacker (re-fingerprinted); every accepted buffer's iteration and lookups are compared with the reference exposure list, FINGERPRINT must be exposed whenever present, the attribute validate_integrity reports must be exposed, and the exposed prefix must be identical before and after the rewrite; evaluations = buffers judged; non-trivial = all (each has a tail or a rewrite); distinct = distinct buffers by hash",
             vec!["probe.validate_integrity_ok"],
         ),
         "C14" => codec_plan(
             "exploration",
-            vec![b("tcpstream", "random", 60_000, 1_500_000, thorough), b("tcpstream", "sweep", 1_500, 20_000, thorough)],
+            vec![b("tcpstream", "random", 800_000, 12_000_000, thorough), b("tcpstream", "sweep", 15_000, 200_000, thorough)],
             "random profile: each evaluation is one stream of 1..6 frames (lengths 0..3, around 255/256, up to 65535; payloads that look like length prefixes) cut into segments (1-byte, all at once, 1..3 bytes, random) with push/pull interleavings (pull before data, drain after each push, random pulls, single pull per push, drain only at the end, repeated pulls on an incomplete frame) and an optional connection cut, every pull compared with the frame model; sweep profile: for each drawn stream of <= 3 frames and <= 12 bytes ALL 2^(n-1) segmentations x {drain after each push, drain at end} (evaluations counts each pattern); non-trivial = >= 2 segments or >= 2 frames; distinct = distinct event-log hash / distinct swept stream",
             vec![],
         ),
         "C17" => codec_plan(
             "fault_enumeration",
-            vec![b("cut", "default", 6_000, 150_000, thorough)],
+            vec![b("cut", "default", 300_000, 5_000_000, thorough)],
             "each run samples one well-formed message (library builder or foreign peer, all sealing variants, 20 B .. 65 KB) and enumerates EVERY cut point 0..len(m) (connection cut / short read), each of the 160 header bits flipped for the header-decoder clause, then reassembles a sequence of 1..4 messages from a randomly segmented stream using only MessageHeader::from_bytes and the Truncated{expected} report; evaluations = cut points + header variants judged; every strict prefix is non-trivial; distinct counts sampled messages",
             vec![],
         ),
